@@ -25,6 +25,8 @@ def run_case(case):
     desc = shell.default_cfg(provides=case['prov'], requires=case['req'],
                              multiclient={'port': case['mc'], 'claim': 'Claim', 'grant': ['Ok'], 'release': 'Release'}
                              if case.get('mc') else None)
+    if case.get('preset'):
+        desc['preset'] = case['preset']        # the configuration is made with the convenience function of that name
     stg = _quiet(shell.staged_build, desc, fct)
     obs = {'stage': stg.stage, 'exc': stg.exc_name, 'files': None, 'f': None, 'k': None, 'match': None}
     if stg.ok:
@@ -114,7 +116,7 @@ def check_c03(tier, seed):
                 'each case is run through PortSelect/PortsSemanticsCfg/PortsCfg/match/Builder.build on a generated component '
                 'with exactly those ports. Random configurations with up to 6 ports per side are validated by '
                 'PortSelectionTrace.tla.')
-    cfgs = ['PortSelection_provides.cfg', 'PortSelection_requires.cfg']
+    cfgs = ['PortSelection_provides.cfg', 'PortSelection_requires.cfg', 'PortSelection_presets.cfg']
     if tier == 'thorough':
         cfgs.append('PortSelection_both.cfg')
     for cfg in cfgs:
@@ -124,7 +126,7 @@ def check_c03(tier, seed):
             raise core.MachineryError(f'{cfg}: no cases')
         chk.sample(cases[len(cases) // 2])
         replay_parallel(chk, cases, replay_portsel_case, cfg,
-                        lambda c: json.dumps([c['prov'], c['req'], c['P'], c['R'], c['Inj'], c.get('mc', '')], sort_keys=True))
+                        lambda c: json.dumps([c['prov'], c['req'], c['P'], c['R'], c['Inj'], c.get('mc', ''), c.get('preset', '')], sort_keys=True))
         chk.traces += len(cases)
     rng = random.Random(seed + 3)
     traces = [_quiet(record_trace, rng, f'p{seed}-{i}') for i in range(500 if tier == 'quick' else 6000)]
